@@ -29,17 +29,29 @@ CHECK = {
                   "every failed attempt a resolving name must describe a complete, hash-correct model; at every quiescent point "
                   "with an open response body the name must not yet resolve to the manifest being pulled; one of up to three fault-free "
                   "attempts must succeed. Push: at the arrival of the manifest PUT every layer must have been accepted in this push and no "
-                  "layer request may be open. The space is finite but far larger than the sample; no absence proof.",
+                  "layer request may be open. Legacy push additionally: {layers with From -> upload start carries mount=&from=; registry "
+                  "mounts (201) iff the named source repository holds the blob, or ignores the mount (202), or answers the mount request "
+                  "with an error} x {history of 1-3 consecutive pushes in ONE process (process-wide blobUploadManager untouched between "
+                  "them) of models sharing layer digests to 3 target names: same repository, other namespace, other host}; the fake "
+                  "registry books per repository (host/namespace/model) what it holds (present before, committed there, mounted there "
+                  "with 201) and the manifest PUT for repository R requires every listed blob accepted by R in this push and held by R. "
+                  "The space is finite but far larger than the sample; no absence proof.",
     "level_note": "Covered entry points: Registry.Pull, Registry.Push (package server/internal/client/ollama), registry.Local POST "
                   "/api/pull non-streaming and streaming (its backoff retry loop and progress ticker run on the virtual clock), "
-                  "and the legacy server.PushModel / uploadBlob / blobUpload.Run with single-part uploads, 307 direct-upload "
-                  "redirects and its retry sleeps. NOT covered: legacy multi-part uploads (parts are >= 100 MB), the 401 token "
-                  "exchange, cross-repository mounts, Registry.Push with PushParams.From, real sockets/TLS (the fake is a "
+                  "and the legacy server.PushModel / uploadBlob / blobUpload.Prepare / Run with single-part uploads, 307 direct-upload "
+                  "redirects, its retry sleeps, cross-repository mount requests (Layer.From) and sequences of pushes that share the "
+                  "process-wide upload table. NOT covered: legacy multi-part uploads (parts are >= 100 MB), the 401 token "
+                  "exchange, pushes that overlap in time (histories are consecutive: the next push starts 70 virtual seconds after "
+                  "the previous one returned), Registry.Push with PushParams.From, real sockets/TLS (the fake is a "
                   "RoundTripper; net/http's own transport behaviour on cancellation is modelled: a cancelled request's body "
                   "read returns context.Cause). Faults are addressed by request identity (layer, chunk ordinal), not arrival "
                   "ordinal, so that cases replay deterministically under concurrency. Chunk completion order is bounded by "
                   "MaxStreams (only running downloads can be released). Process crashes between attempts are C12's subject. "
-                  "Unexported identifiers used: server.PushModel's registryOptions; everything else is exported API. The "
+                  "Unexported identifiers used: server.PushModel's registryOptions; blobUploadManager and blobUpload.file (the legacy "
+                  "harness empties the upload table before every case = fresh server process, closing the blob file a parked Run holds; "
+                  "while legacy-mount-leaves-stale-upload-entry is listed it also removes, after an attempt, the entries of blobs the "
+                  "registry mounted in it - what a fixed uploader does itself - and tolerates the goroutine that defect leaves parked "
+                  "when the bubble ends); everything else is exported API. The "
                   "exclusion of the listed finding chunk-hole-trusted-on-retry repairs the cache the way a fixed client would "
                   "(removes the holed blob and its chunk markers) and keeps going; recognising marker blobs relies on their "
                   "content prefix 'v1 pull chunksum <layer digest> '.",
@@ -62,7 +74,8 @@ CHECK = {
     "floors": {"chunked_layer_with_failed_and_completed_chunks": 0.15, "retry_skips_chunks_by_marker": 0.15,
                "chunks_completed_out_of_order": 0.12, "attempt_cancelled": 0.05, "attempt_timed_out_bodies": 0.03,
                "push_with_failed_layer": 0.08, "internal_retry": 0.015, "manifest_changed_between_attempts": 0.01,
-               "retry_resumes_partial_layer": 0.05},
+               "retry_resumes_partial_layer": 0.05,
+               "legacy_mount_201": 0.10, "push_sequence_2plus": 0.20, "same_digest_other_repo": 0.12},
     "rule": "rapid-generated scripts. Pull (Registry.Pull; registry.Local /api/pull stream and non-stream): manifest of 1-4 "
             "layers with sizes in {1,5,31,63,64,65,80,100,128,129,200,257} around ChunkingThreshold 64, optional config layer, "
             "optional updated manifest (layers dropped / added) published from some attempt on; per chunked layer a chunk list "
@@ -75,7 +88,14 @@ CHECK = {
             "(Registry.Push; legacy PushModel): 1-4 layers (+config), subset already present at the registry, MaxStreams 1-4, "
             "1-3 scripted attempts with faults on HEAD / upload start / upload (PUT, PATCH, direct PUT after 307) / commit / "
             "manifest PUT from {500, 503, 400, 403, reset, TLS error, 500 after half the body}, withheld answers released in a "
-            "drawn order or cancelled; then one fault-free push. Non-trivial = a pull attempt in which a chunked layer has at "
+            "drawn order or cancelled; then one fault-free push. Legacy push, 60 % of the cases: a history of 1-3 pushes in one "
+            "process, each to one of example.com/library/m, example.com/ns2/m, h2.test/library/m, each of a subset of the case's "
+            "layers (shared digests; config optional) with 0-2 scripted attempts and one fault-free attempt that must succeed; per "
+            "layer an optional From (the first or second target's name, base:latest, h2.test/ns1/base:7b, or a blob file path as "
+            "create writes it), per layer whether the From repository holds the blob and whether the registry honours mounts; fault "
+            "kind 'mount' (the status list plus 404 / 405) on the mount request; blobs present in a target before a push. Counted: "
+            "legacy_mount_201 (a mount answered 201), push_sequence_2plus, same_digest_other_repo (a push lists a digest an earlier "
+            "push of the history listed for another repository), mounted_digest_pushed_to_repo_lacking_it. Non-trivial = a pull attempt in which a chunked layer has at "
             "least one completed and at least one failed chunk, or a push attempt with a failed layer. Distinct = distinct hash "
             "of the generated case.",
     "assumptions": [
@@ -85,5 +105,6 @@ CHECK = {
         "a chunk counts as completed when every honest byte was handed to the client and the listed digest matches",
         "after the script the registry is fault-free, ungated and serves honest chunk lists with the case's cut points; up to three such attempts are made and one must succeed (a client that detects leftover damage only when verifying may need one more attempt)",
         "legacy push: blobs are far below the 100 MB part size, so every upload has exactly one part",
+        "legacy push histories: one server process per case (the upload table is empty when a case starts and is never touched between the pushes of a case, except for the repair described in level_note while the mount finding is listed); a registry mounts a blob only if the repository named by from= on the same host holds it, and a mounted blob is held by the target repository from then on; Layer.From values are those create writes (model.Name.DisplayShortest of the parent, or the path of the source blob)",
     ],
 }
